@@ -70,6 +70,8 @@ type Config struct {
 	// given as *elliptic.CurveParams; the library takes its group from tss.Parameters.EC())
 	Curve elliptic.Curve
 
+	Concurrency int // > 0: tss.Parameters.SetConcurrency (default: GOMAXPROCS)
+
 	NoProofs bool  // resharing / keygen: SetNoProofMod + SetNoProofFac
 	Seed     int64 // seeds protocol randomness; 0 = crypto/rand
 	// FirstDraws, when set, gives per party (in sorted party order) the bytes its Rand() source yields first
@@ -252,6 +254,9 @@ func New(cfg Config, sink ev.Sink) (*Session, error) {
 		if cfg.NoProofs {
 			p.SetNoProofMod()
 			p.SetNoProofFac()
+		}
+		if cfg.Concurrency > 0 {
+			p.SetConcurrency(cfg.Concurrency)
 		}
 	}
 	switch cfg.Proto {
